@@ -138,6 +138,28 @@ func (g *FuncGen) execCall(instr ssa.Instruction, c *ssa.CallCommon, v ssa.Value
 		g.execBuiltin(b, c, v, pos)
 		return
 	}
+	if g.c != nil && len(g.c.Cuts) > 0 {
+		name := ""
+		if c.IsInvoke() {
+			name = c.Method.Name()
+		} else if sc := c.StaticCallee(); sc != nil {
+			name = sc.Name()
+		}
+		for _, cut := range g.c.Cuts {
+			if cut.Callee != name {
+				continue
+			}
+			cx := g.newSpecCtx(g.st, g.entry)
+			cx.locals = true
+			cx.at = g.cur
+			if g.env.isLemmaInstance(cut.C.E) {
+				g.assume(cx.assumeTerm(cut.C.E))
+				continue
+			}
+			g.oblig("cut", "before-"+name+":"+cut.C.Name, cx.boolTerm(cut.C.E), pos, cut.C.Props, cut.C.Src)
+			g.assume(cx.assumeTerm(cut.C.E))
+		}
+	}
 	var args []string
 	var argVals []ssa.Value
 	if c.IsInvoke() {
@@ -897,6 +919,8 @@ func (g *FuncGen) execGhost(at string, cx *SpecCtx) {
 				msort = "(Array Int Str)"
 			} else if ok && ci.kind == "ghostset" {
 				msort = "(Array Int Bool)"
+			} else if ok && ci.kind == "ghostreal" {
+				msort = "(Array Int Real)"
 			}
 			N := g.declare("ghostmap", msort)
 			name := fmt.Sprintf("%s!g%d", bv.Name, g.sc.counter)
